@@ -55,7 +55,7 @@ theorem step_srvSub {b : B} {s : Spec.Broker.S} (h : R b s) (cb : Nat) (f : Byte
     rw [hsp]
     simp only [hrej, ↓reduceIte] at hheld
     refine ⟨R_held h i1 i2 i3 (by rw [hst]) (by rw [hst]) (by rw [hst]) hrr hheld h.heldGood h.owners
-      (fun _ _ => rfl) rfl rfl rfl rfl, ?_⟩
+      (fun _ _ => rfl) rfl rfl rfl, ?_⟩
     rw [hout, ha]
     exact accepts_apiErr
   · have hsp : Spec.Broker.step1 s (.srvSub cb f q) =
@@ -71,7 +71,7 @@ theorem step_srvSub {b : B} {s : Spec.Broker.S} (h : R b s) (cb : Nat) (f : Byte
     rw [hsp]
     simp only [hrej, Bool.false_eq_true, ↓reduceIte] at hheld
     refine ⟨R_held (s' := { s with held := addHeld s.held cb f (min q Spec.Broker.maxQos) }) h i1 i2 i3
-      (by rw [hst]) (by rw [hst]) (by rw [hst]) hrr hheld ?_ ?_ ?_ rfl rfl rfl rfl, ?_⟩
+      (by rw [hst]) (by rw [hst]) (by rw [hst]) hrr hheld ?_ ?_ ?_ rfl rfl rfl, ?_⟩
     · intro x hx
       simp only [addHeld, List.mem_append, List.mem_filter, List.mem_singleton] at hx
       rcases hx with hx | rfl
@@ -123,7 +123,7 @@ theorem step_srvUnsub {b : B} {s : Spec.Broker.S} (h : R b s) (cb : Nat) (f : By
       ({ s with held := s.held.filter (fun h => !(h.owner == cb && h.filter == f)) }, [.unspecified]) := rfl
   rw [hsp]
   refine ⟨R_held (s' := { s with held := s.held.filter (fun h => !(h.owner == cb && h.filter == f)) }) h i1 i2 i3
-    rfl rfl rfl (Mqtt.Proofs.Broker.unsubscribe_rroot _ _ _) hheld ?_ ?_ ?_ rfl rfl rfl rfl, accepts_unspecified _⟩
+    rfl rfl rfl (Mqtt.Proofs.Broker.unsubscribe_rroot _ _ _) hheld ?_ ?_ ?_ rfl rfl rfl, accepts_unspecified _⟩
   · intro x hx; exact h.heldGood x (List.mem_filter.mp hx).1
   · intro x hx hlt; exact h.owners x (List.mem_filter.mp hx).1 hlt
   · intro c hc
@@ -248,7 +248,7 @@ theorem step_subscribe {b : B} {s : Spec.Broker.S} (h : R b s) (c : Nat) (hl : b
     exact this topics s.held
   have hR : R (packet b c (.subscribe id topics)).1 { s with held := specSubHeld c topics s.held } := by
     refine R_update (σ' := { σ with topics := subTopics topics σ.topics }) (k' := k) h (liveSess_eq hc ha hs) hk
-      i1 i2 i3 hconns hstore hsess rfl rfl hrr hheld ?_ ?_ ?_ rfl rfl h.sconns ?_ rfl ?_
+      i1 i2 i3 hconns hstore hsess rfl rfl hrr hheld ?_ ?_ ?_ rfl rfl h.sconns ?_ ?_
     · intro x hx
       rcases hsub_mem x hx with h1 | ⟨_, tq, htq, he⟩
       · exact h.heldGood x h1
@@ -350,7 +350,7 @@ theorem step_unsubscribe {b : B} {s : Spec.Broker.S} (h : R b s) (c : Nat) (hl :
   refine ⟨?_, accepts_lits (.cons (.send c _ (by intro w h; cases h)) .nil)⟩
   refine R_update (σ' := { σ with topics := σ.topics.filter (fun p => !topics.contains p.1) }) (k' := k)
     (s' := { s with held := s.held.filter (fun h => !(h.owner == c && topics.contains h.filter)) })
-    h (liveSess_eq hc ha hs) hk i1 i2 i3 rfl rfl rfl rfl rfl hfu.2 hheld ?_ ?_ ?_ rfl rfl h.sconns ?_ rfl ?_
+    h (liveSess_eq hc ha hs) hk i1 i2 i3 rfl rfl rfl rfl rfl hfu.2 hheld ?_ ?_ ?_ rfl rfl h.sconns ?_ ?_
   · intro x hx; exact h.heldGood x (List.mem_filter.mp hx).1
   · intro x hx hlt; exact h.owners x (List.mem_filter.mp hx).1 hlt
   · intro c' hne
